@@ -1,5 +1,146 @@
-import PyAirtouch.Model.Sock
-/-! placeholder until the proof files are merged -/
+import PyAirtouch.Lemmas.SockConn
+/-!
+# C15 — close is final
+
+Vocabulary (defined in `PyAirtouch.Lemmas.SockConn`):
+
+* `closedNow tr` — the last `apiOpen` / `apiCloseDone` event of the trace is an `apiCloseDone`: a
+  `close()` call has returned and `open_socket()` has not been called since;
+* `closing tr` — the last `apiOpen` / `apiClose` / `apiCloseDone` event is an `apiClose`: a `close()`
+  call has started and no `close()` has returned since;
+* `disciplined s l` — the **calling discipline** assumed by `C15_closed_state`: the labels `apiOpen`
+  and `apiClose` are not issued while `closing s.core.trace`.  Nothing else is restricted: `send`,
+  `reset_connection`, every schedule of the tasks and every behaviour of the environment are allowed
+  at any time, also during a `close()`;
+* `runD` / `ReachableD` — `run` / `Reachable` restricted to disciplined label sequences;
+* `ClosedState s` — the socket is closed: not open, not connected, no current transport, not
+  connecting, no transport held open, every background task finished, and every remaining task is
+  an API call (`send`, `reset_connection`, `close`) that may still be suspended;
+* `quietEv e` — the events a closed socket can still produce: `apiClose`, `apiCloseDone`, `apiReset`,
+  `reject _ _ notOpen`, `qdrop _ _ maxRetries` (a `send` that was suspended in `drain()` when the
+  socket was closed gives up) and `notify false`.
+
+The discipline is needed: a second `close()` issued while the first one is still waiting returns at
+once (`is_open` is already false), so `closedNow` holds although the first call has not yet closed
+the transport — see `closedNow_needs_discipline` in the lemma file.
+-/
 namespace PyAirtouch.Props.C15
-theorem C15_placeholder : True := trivial
+open PyAirtouch.Model.Sock PyAirtouch.Spec.Trace PyAirtouch.Lemmas.SockConn
+
+/-- once `close()` has returned (and until the next `open_socket()`), the socket is closed -/
+theorem C15_closed_state {s : Sys} (h : ReachableD s) (hc : closedNow s.core.trace = true) :
+    s.core.isOpen = false ∧ s.core.isConnected = false ∧ s.core.rw = none ∧ s.core.connecting = false ∧
+    (∀ i : Nat, (s.core.conns[i]?.map ConnSt.isLive) ≠ some true) ∧
+    (∀ k ∈ s.tasks, k.bg = true → k.pc = .finished) := by
+  have hcs := closedState_of (inv_reachable h.reachable) (cinv_reachableD h) hc
+  exact ⟨hcs.isOpen, hcs.isConnected, hcs.rw, hcs.connecting, hcs.no_live, hcs.bg_done⟩
+
+/-- non-vacuity: open, connect, start reading, two sends (the second left suspended in `drain()`
+    because the transport paused writing), then a complete `close()`: cancel, gather, close the
+    transport, wait, notify, return.  The suspended `send` (task 4) is still there. -/
+example : ∃ s, ReachableD s ∧ closedNow s.core.trace = true ∧ s.tasks.length = 6 ∧
+    (∃ e, pcAt s 4 = some (.drainAwait 0 e .done)) :=
+  ⟨_, ⟨[.apiOpen, .run 1 .go, .run 1 .openOk, .run 1 .go, .run 2 .go, .apiSend 7 2 100 true, .envPause 0 true,
+        .apiSend 8 2 100 true, .apiClose, .run 5 .go, .envLostRan 0, .run 5 .go, .run 5 .go], rfl⟩,
+   by decide, by decide, ⟨_, rfl⟩⟩
+
+/-- the same, packaged with the fact that the remaining tasks are API calls -/
+theorem C15_closed_state' {s : Sys} (h : ReachableD s) (hc : closedNow s.core.trace = true) : ClosedState s :=
+  closedState_of (inv_reachable h.reachable) (cinv_reachableD h) hc
+
+/-- non-vacuity: as above -/
+example : ∃ s, ReachableD s ∧ closedNow s.core.trace = true :=
+  ⟨_, ⟨[.apiOpen, .run 1 .go, .run 1 .openOk, .run 1 .go, .run 2 .go, .apiSend 7 2 100 true, .envPause 0 true,
+        .apiSend 8 2 100 true, .apiClose, .run 5 .go, .envLostRan 0, .run 5 .go, .run 5 .go], rfl⟩,
+   by decide⟩
+
+/-- a closed socket stays closed and quiet under every label except `open_socket()`: whatever is
+    scheduled and whatever the environment does, the step appends only quiet events to the trace -/
+theorem C15_quiet_after_close {s s' : Sys} {l : Label} (hcs : ClosedState s) (hl : l ≠ .apiOpen)
+    (h : step s l = some s') :
+    ClosedState s' ∧ s'.core.trace.take s.core.trace.length = s.core.trace ∧
+    ∀ e ∈ s'.core.trace.drop s.core.trace.length, quietEv e = true := by
+  obtain ⟨h1, evs, h2, h3⟩ := closed_step hcs hl h
+  refine ⟨h1, by simp [h2], ?_⟩
+  intro e he
+  rw [h2, List.drop_left] at he
+  exact h3 e he
+
+/-- non-vacuity: in the closed state above the suspended `send` is resumed with an error from
+    `drain()`; it re-queues its message, runs `_disconnect` and notifies "disconnected" -/
+example : ∃ s s', ReachableD s ∧ closedNow s.core.trace = true ∧ step s (.run 4 .drainErr) = some s' ∧
+    s'.core.trace.drop s.core.trace.length = [.notify false 0] :=
+  ⟨_, _, ⟨[.apiOpen, .run 1 .go, .run 1 .openOk, .run 1 .go, .run 2 .go, .apiSend 7 2 100 true, .envPause 0 true,
+        .apiSend 8 2 100 true, .apiClose, .run 5 .go, .envLostRan 0, .run 5 .go, .run 5 .go], rfl⟩,
+   by decide, rfl, by decide⟩
+
+/-- in particular: no connection attempt, no new transport, nothing written, no "connected" notification -/
+theorem C15_no_activity_after_close {s s' : Sys} {l : Label} (hcs : ClosedState s) (hl : l ≠ .apiOpen)
+    (h : step s l = some s') :
+    ∀ e ∈ s'.core.trace.drop s.core.trace.length,
+      (∀ t, e ≠ .attempt t) ∧ (∀ c t, e ≠ .opened c t) ∧ (∀ c sid t, e ≠ .wire c sid t) ∧
+      (∀ c sid t, e ≠ .deadWrite c sid t) ∧ (∀ c sid t, e ≠ .writeFault c sid t) ∧
+      (∀ sid t x r ok, e ≠ .accept sid t x r ok) ∧ (∀ c tag t, e ≠ .deliver c tag t) ∧
+      (∀ t, e ≠ .notify true t) := by
+  intro e he
+  have hq := (C15_quiet_after_close hcs hl h).2.2 e he
+  refine ⟨?_, ?_, ?_, ?_, ?_, ?_, ?_, ?_⟩ <;> (intros; intro heq; subst heq; cases hq)
+
+/-- non-vacuity: `reset_connection()` on the closed socket above -/
+example : ∃ s s', ReachableD s ∧ closedNow s.core.trace = true ∧ step s .apiReset = some s' ∧
+    s'.core.trace.drop s.core.trace.length = [.apiReset 0, .notify false 0] :=
+  ⟨_, _, ⟨[.apiOpen, .run 1 .go, .run 1 .openOk, .run 1 .go, .run 2 .go, .apiSend 7 2 100 true, .envPause 0 true,
+        .apiSend 8 2 100 true, .apiClose, .run 5 .go, .envLostRan 0, .run 5 .go, .run 5 .go], rfl⟩,
+   by decide, rfl, by decide⟩
+
+/-- `send()` on a closed socket is refused with `NotOpenError` and the queue is left unchanged -/
+theorem C15_send_after_close {s s' : Sys} {sid retries life : Nat} {encOk : Bool} (hcs : ClosedState s)
+    (h : step s (.apiSend sid retries life encOk) = some s') :
+    s'.core.queue = s.core.queue ∧ s'.core.trace = s.core.trace ++ [.reject sid s.core.now .notOpen] :=
+  closed_send hcs h
+
+/-- non-vacuity: `send()` on the closed socket above -/
+example : ∃ s s', ReachableD s ∧ closedNow s.core.trace = true ∧ step s (.apiSend 9 2 100 true) = some s' :=
+  ⟨_, _, ⟨[.apiOpen, .run 1 .go, .run 1 .openOk, .run 1 .go, .run 2 .go, .apiSend 7 2 100 true, .envPause 0 true,
+        .apiSend 8 2 100 true, .apiClose, .run 5 .go, .envLostRan 0, .run 5 .go, .run 5 .go], rfl⟩,
+   by decide, rfl⟩
+
+/-- over any number of steps: as long as `open_socket()` is not called, a closed socket stays closed
+    and everything it appends to the trace is quiet -/
+theorem C15_quiet_run {ls : List Label} {s s' : Sys} (hcs : ClosedState s) (hl : ∀ l ∈ ls, l ≠ .apiOpen)
+    (h : run s ls = some s') :
+    ClosedState s' ∧ s'.core.trace.take s.core.trace.length = s.core.trace ∧
+    ∀ e ∈ s'.core.trace.drop s.core.trace.length, quietEv e = true := by
+  obtain ⟨h1, evs, h2, h3⟩ := closed_run hcs hl h
+  refine ⟨h1, by simp [h2], ?_⟩
+  intro e he
+  rw [h2, List.drop_left] at he
+  exact h3 e he
+
+/-- non-vacuity: on the closed socket above: time passes, `reset_connection()`, the stale `send` fails,
+    a `send()`, a second `close()`, and all their continuations -/
+example : ∃ s s', ReachableD s ∧ closedNow s.core.trace = true ∧
+    run s [.advance 5, .apiReset, .run 4 .drainErr, .run 6 .go, .run 4 .go, .apiSend 9 2 100 true, .apiClose] = some s' ∧
+    s'.core.trace.length = s.core.trace.length + 6 :=
+  ⟨_, _, ⟨[.apiOpen, .run 1 .go, .run 1 .openOk, .run 1 .go, .run 2 .go, .apiSend 7 2 100 true, .envPause 0 true,
+        .apiSend 8 2 100 true, .apiClose, .run 5 .go, .envLostRan 0, .run 5 .go, .run 5 .go], rfl⟩,
+   by decide, rfl, by decide⟩
+
+/-- the specification's C15 monitor (`Spec.Trace.c15`, the function that also judges recordings of the
+    real client) accepts the trace of every history that respects the calling discipline: after
+    an `apiCloseDone` and until the next `apiOpen` there is no connection attempt, no transport
+    opened, nothing written, no "connected" notification, no message delivered, no send accepted
+    or refused for overflow -/
+theorem C15_trace_monitor {s : Sys} (h : ReachableD s) : c15 s.core.trace = true :=
+  c15_reachableD h
+
+/-- non-vacuity: open, use, close, activity on the closed socket, open again and reconnect -/
+example : ∃ s, ReachableD s ∧ closedNow s.core.trace = false ∧ s.core.trace.length = 22 ∧
+    s.core.rw = some 1 :=
+  ⟨_, ⟨[.apiOpen, .run 1 .go, .run 1 .openOk, .run 1 .go, .run 2 .go, .apiSend 7 2 100 true, .envPause 0 true,
+        .apiSend 8 2 100 true, .apiClose, .run 5 .go, .envLostRan 0, .run 5 .go, .run 5 .go,
+        .advance 5, .apiReset, .run 4 .drainErr, .run 6 .go, .run 4 .go, .apiSend 9 2 100 true, .apiClose,
+        .apiOpen, .run 10 .go, .run 10 .openOk], rfl⟩,
+   by decide⟩
+
 end PyAirtouch.Props.C15
